@@ -277,6 +277,18 @@ func checkC16(c *Ctx) {
 			c.Fail("R2", site+" updates the set and enqueues", fn.Pos(), pr.name+" does not both update the subscribed set and enqueue the change")
 			continue
 		}
+		// ... on every path: a change that updates the set but is queued only "while a stream is up" is in neither the
+		// resubscribe snapshot taken before it nor the queue, when it lands while the stream is being established
+		{
+			isEnq := func(x ssa.Instruction) bool {
+				if x == enq.In {
+					return true
+				}
+				return enq.Fn != fn && isCallToFn(x, enq.Fn)
+			}
+			skip := findPath(posOf(upd), pathQuery{target: isReturn, avoid: isEnq})
+			c.Check(skip == nil, "R2", site+" enqueues every change of the set", upd.Pos(), "every path from the set update reaches the enqueue", "a path updates the subscribed set and returns without queueing the change ("+p.pathString(skip)+"): a change that lands after the resubscribe snapshot of a stream that is being established is in neither the snapshot nor the queue - the service stays (un)subscribed on the stream until the stream next fails")
+		}
 		c.Check(enq.Blocking, "R2", site+" enqueue never drops", enq.In.Pos(), "blocking send", "the enqueue is non-blocking: when the queue is full the change is dropped although the set was updated; it is never re-queued (Subscribe deduplicates on the set) and a healthy stream never resubscribes")
 		if enq.Fn == fn {
 			c.Check(instrDominates(upd, enq.In), "R2", site+" set update precedes enqueue", upd.Pos(), "update dominates the enqueue", "the change is enqueued before the set is updated: a resubscribe in between flushes the entry and its snapshot misses it")
@@ -504,6 +516,8 @@ func checkC16(c *Ctx) {
 	}
 	c.Expect("R5", 3)
 	checkSenderWokenByReceiver(c, "R6")
+	c.Rule("R8", "a slice that was handed on (appended as an element, sent, stored) is not emptied and filled again: batches of a request do not share their backing array")
+	checkHandedOnSliceNotReused(c, "R8")
 	c.Rule("R7", "no lock of the discovery clients is acquired while it is already held: a second RLock behind a waiting writer (Subscribe/Unsubscribe) never returns, and neither does the writer")
 	nacq := 0
 	for _, fn := range le.fns {
@@ -750,4 +764,90 @@ func checkSenderWokenByReceiver(c *Ctx, rule string) {
 		c.Check(okAll, rule, site, ed.Pos(), fmt.Sprintf("%d blocking selects of the sender watch a signal that the receiver goroutine raises when it ends", nsel), "a blocking select of the sender ("+why+") watches no signal that is raised when the receiver ends: after a receive failure on an idle stream the sender stays parked, run() never returns and the stream is never re-established until some later subscription change happens to fail on the dead stream")
 	}
 	c.Expect(rule, 1)
+}
+
+// checkHandedOnSliceNotReused (C16.R8): `batches = append(batches, batch); batch = batch[:0]` keeps filling the array
+// that the stored batch still points at: the names of the next batch overwrite those of the one already stored, so
+// some services are named twice and others not at all in the requests that re-establish a stream.
+func checkHandedOnSliceNotReused(c *Ctx, rule string) {
+	p := c.P
+	n, nbad := 0, 0
+	for _, fn := range p.FuncsIn(configPkg) {
+		if p.isTestFn(fn) {
+			continue
+		}
+		// values handed on as an element: stored into the variadic array of an append, into a map, a field, or sent
+		handed := map[ssa.Value]ssa.Instruction{}
+		eachInstr(fn, func(_ *ssa.BasicBlock, _ int, in ssa.Instruction) {
+			switch x := in.(type) {
+			case *ssa.Store:
+				if _, isSl := x.Val.Type().Underlying().(*types.Slice); !isSl {
+					return
+				}
+				if ia, ok := x.Addr.(*ssa.IndexAddr); ok {
+					if al, ok := ia.X.(*ssa.Alloc); ok {
+						// the array of append(s, elems...)
+						for _, r := range *al.Referrers() {
+							if sl, ok := r.(*ssa.Slice); ok {
+								for _, r2 := range *sl.Referrers() {
+									if call, ok := r2.(*ssa.Call); ok && isBuiltin(call, "append") && len(call.Call.Args) == 2 && call.Call.Args[1] == ssa.Value(sl) {
+										handed[x.Val] = in
+									}
+								}
+							}
+						}
+					}
+				}
+			case *ssa.Send:
+				if _, isSl := x.X.Type().Underlying().(*types.Slice); isSl {
+					handed[x.X] = in
+				}
+			case *ssa.MapUpdate:
+				if _, isSl := x.Value.Type().Underlying().(*types.Slice); isSl {
+					handed[x.Value] = in
+				}
+			}
+		})
+		if len(handed) == 0 {
+			continue
+		}
+		eachInstr(fn, func(_ *ssa.BasicBlock, _ int, in ssa.Instruction) {
+			sl, ok := in.(*ssa.Slice)
+			if !ok || sl.High == nil {
+				return
+			}
+			if k, isC := constInt(sl.High); !isC || k != 0 {
+				return
+			}
+			if _, isSl := sl.X.Type().Underlying().(*types.Slice); !isSl {
+				return
+			}
+			n++
+			at, was := handed[sl.X]
+			if !was {
+				return
+			}
+			// only when the emptied slice is filled again
+			refilled := false
+			for _, r := range *sl.Referrers() {
+				if ph, isPhi := r.(*ssa.Phi); isPhi {
+					for _, r2 := range *ph.Referrers() {
+						if call, ok := r2.(*ssa.Call); ok && isBuiltin(call, "append") && call.Call.Args[0] == ssa.Value(ph) {
+							refilled = true
+						}
+					}
+				}
+				if call, ok := r.(*ssa.Call); ok && isBuiltin(call, "append") && call.Call.Args[0] == ssa.Value(sl) {
+					refilled = true
+				}
+			}
+			if refilled {
+				nbad++
+				c.Fail(rule, fmt.Sprintf("%s reuses a slice it has handed on#%d", fnKey(fn), nbad), sl.Pos(), "the slice is stored as an element ("+p.Pos(at.Pos())+") and then emptied with [:0] and appended to again: both share one backing array, the new elements overwrite those of the stored batch - with more than one batch of names some services are named twice and others are missing from the requests that re-establish the stream, and nothing is queued for them")
+			}
+		})
+	}
+	if nbad == 0 {
+		c.OK(rule, "no handed-on slice is refilled", token.NoPos, fmt.Sprintf("%d [:0] re-slices examined", n))
+	}
 }
